@@ -385,6 +385,19 @@ pub fn all_schedules(quick: bool) -> Vec<Schedule> {
             }
         }
     }
+    if !quick {
+        // four concurrent requests: 2520 orders, every 7th is run (stress covers the rest by sampling)
+        let os = orders(4);
+        for ks in [vec![10u16, 10, 10, 10], vec![10, 10, 11, 11], vec![10, 11, 12, 13]] {
+            for (prefill, has_k0) in [(0usize, false), (cap, false), (cap - 1, false)] {
+                for (oi, o) in os.iter().enumerate() {
+                    if oi % 7 == 3 {
+                        out.push(Schedule { ks: ks.clone(), order: o.clone(), prefill, prefill_has_k0: has_k0, burst_at: if oi % 2 == 0 { Some(1 + oi % 7) } else { None }, burst: if oi % 2 == 0 { cap } else { 0 } });
+                    }
+                }
+            }
+        }
+    }
     out
 }
 
@@ -594,7 +607,7 @@ pub fn run(ctx: &Ctx) -> i32 {
     ctx.sample(|| J::obj(vec![("kind", J::s("stress")), ("threads", J::i(16)), ("sizes", J::s("8 / 70 / 300 distinct")), ("delays", J::s("0-200 us sleeps or yields at the two hook points between the critical sections"))]));
     vc::set_hook(None);
     ctx.finish(
-        "(a) controlled schedules: a turnstile at the yield hook (between the lookup and insert critical sections, never inside the lock) serialises 2 and 3 concurrent requests; every order of their lookup/insert sections (6 and 90) x key patterns (same / different sizes) x cache states (empty, one below capacity, full, requested size already cached, half full) x optional burst of 64 other sizes between a lookup and its insert (evicts in between); after EVERY critical section the snapshot taken under the cache's own lock must satisfy |map| = |FIFO| <= capacity, same key set, no duplicate, plan stored under key k is generate(k), and must equal a sequential FIFO cache model (keys and order); hit/miss of every request must match the model; every returned encoder must equal the uncached single-thread encoder incl. repair packets at 5 ESIs. (b) stress: 16 threads x N requests over 8/70/300 sizes with injected delays at the hook points, a sampler thread and every 16th request checking the invariant, every returned encoder checked. non-trivial = controlled schedule in which at least two requests were between lookup and insert at the same time; distinct by (order, sizes, cache state, burst)",
+        "(a) controlled schedules: a turnstile at the yield hook (between the lookup and insert critical sections, never inside the lock) serialises 2 and 3 concurrent requests (thorough: also 4, every 7th of the 2520 orders); every order of their lookup/insert sections (6 and 90) x key patterns (same / different sizes) x cache states (empty, one below capacity, full, requested size already cached, half full) x optional burst of 64 other sizes between a lookup and its insert (evicts in between); after EVERY critical section the snapshot taken under the cache's own lock must satisfy |map| = |FIFO| <= capacity, same key set, no duplicate, plan stored under key k is generate(k), and must equal a sequential FIFO cache model (keys and order); hit/miss of every request must match the model; every returned encoder must equal the uncached single-thread encoder incl. repair packets at 5 ESIs. (b) stress: 16 threads x N requests over 8/70/300 sizes with injected delays at the hook points, a sampler thread and every 16th request checking the invariant, every returned encoder checked. non-trivial = controlled schedule in which at least two requests were between lookup and insert at the same time; distinct by (order, sizes, cache state, burst)",
         &["controlled enumeration covers <= 3 concurrent requests; larger thread counts are stress-sampled and the OS scheduler decides what is seen", "snapshot/clear/yield hooks are add-only and outside the critical sections (snapshot takes the cache's own mutex)"],
         vec![],
     )
